@@ -472,9 +472,16 @@ pub fn one_case(ctx: &Ctx, case: u64, l: &mut Local) {
                 2 => payload["iss"] = rand_json(&mut r, 1),
                 _ => payload["iss"] = json!("https://issuer.example/A"),
             }
-            match r.below(6) {
+            match r.below(8) {
                 0 => {}
                 1 => payload["exp"] = rand_json(&mut r, 1),
+                2 => {
+                    let big = r.pick(&[json!(u64::MAX), json!(i64::MIN), json!(1.0e308), json!(-1.5), json!(9_007_199_254_740_993u64), json!(4_102_444_800u64)]).clone();
+                    payload[*r.pick(&["exp", "nbf", "iat"])] = big;
+                    if payload.get("exp").is_none() {
+                        payload["exp"] = json!(api::now() + 3600);
+                    }
+                }
                 _ => payload["exp"] = json!(api::now() + 3600),
             }
             // disclosures of every JSON shape and arity 0..5
@@ -571,7 +578,7 @@ pub fn one_case(ctx: &Ctx, case: u64, l: &mut Local) {
                 let gjwt = api::sign_payload(Alg::ES256, 0, &good_payload, None);
                 let full = json!({"aud": "aud", "nonce": "n", "iat": api::now(), "sd_hash": model::digest_of(&format!("{gjwt}~"))});
                 for member in ["aud", "nonce", "iat", "sd_hash"] {
-                    for repl in [None, Some(json!(null)), Some(json!(5)), Some(json!(["x"])), Some(json!({"a": 1}))] {
+                    for repl in [None, Some(json!(null)), Some(json!(5)), Some(json!(["x"])), Some(json!({"a": 1})), Some(json!(u64::MAX)), Some(json!(i64::MAX)), Some(json!(i64::MIN)), Some(json!(-1)), Some(json!(1.0e308)), Some(json!(9_007_199_254_740_993u64)), Some(json!(0)), Some(json!(""))] {
                         let mut pl = full.clone();
                         match &repl {
                             None => {
@@ -734,6 +741,10 @@ pub fn one_case(ctx: &Ctx, case: u64, l: &mut Local) {
                         own.push(format!("$.{k}{mb}"));
                         own.push(format!("$.{}{mb}{}", cut(&k, n / 2), cut(&k, n)));
                         own.push(format!("$.{mb}{k}"));
+                    }
+                    for idx in ["18446744073709551615", "18446744073709551616", "99999999999999999999999999", "4294967296", "-1", "+1", "0x10", "1e3", "01", " 1", ""] {
+                        own.push(format!("$.{k}[{idx}]"));
+                        own.push(format!("$.{k}.[{idx}].x"));
                     }
                     own.push(format!("$.{k}[0]{}", "é"));
                     own.push(format!("$.{k}.é[1]"));
